@@ -699,8 +699,18 @@ func endsDollar(parts []ast.TPart) bool {
 
 func (r *R) template(t ast.Template) {
 	form := t.Form
-	if form != ast.Quoted && (!(r.nlOK() || r.tailHeredoc) || !CanHeredoc(t)) {
-		form = ast.Quoted
+	if form != ast.Quoted && !CanHeredoc(t) {
+		// generators only choose a heredoc form for content that permits it
+		panic("render: template cannot be written as a heredoc: " + ast.Dump(t))
+	}
+	if form != ast.Quoted && !(r.nlOK() || r.tailHeredoc) {
+		// the newline that ends a heredoc is significant here: parentheses make it harmless
+		r.punct("(")
+		r.push(true)
+		r.template(t)
+		r.pop()
+		r.punct(")")
+		return
 	}
 	switch form {
 	case ast.Quoted:
